@@ -1,16 +1,24 @@
 (* C24 - pooled connections carry no state from a previous checkout.
 
    Sequential model of ONE pooled DBAPI connection slot used by a sequence of "users" through the
-   engine-level Connection API.  Transcribes
-     engine/base.py   Connection.close / commit / rollback / begin / execution_options(isolation_level),
-                      the autobegin + "inactive transaction" checks of _execute_context,
-                      RootTransaction._do_commit / _do_rollback / _close_impl / _do_close
-     engine/default.py _set_connection_characteristics / _reset_characteristics / reset_isolation_level
-     pool/base.py     _ConnectionFairy._reset, _finalize_fairy (explicit and GC path), checkin finalizers,
+   engine-level Connection API.  Transcribes (code as of commit 4102dab)
+     engine/base.py   Connection.close / commit / rollback / begin / begin_nested /
+                      execution_options, the autobegin + "inactive transaction" checks of
+                      _execute_context, RootTransaction._do_commit / _do_rollback / _close_impl,
+                      NestedTransaction.__init__ / _do_commit / _do_rollback / _do_close / _close_impl /
+                      _cancel / _deactivate_from_connection, Engine.execution_options (option engine:
+                      characteristics applied by an engine_connect listener at every checkout)
+     engine/default.py set_connection_execution_options / _set_connection_characteristics (ONE finaliser
+                      per call, covering all characteristics named in that call) / _reset_characteristics /
+                      reset_isolation_level; characteristics.py (isolation_level is transactional and
+                      touches the DBAPI connection, logging_token is local to the Connection)
+     pool/base.py     _ConnectionFairy._reset, _finalize_fairy (explicit and GC path), the checkin
+                      finaliser loop (every pending finaliser, last registered first),
                       invalidate-on-reset-error, NullPool close-on-return
    DBAPI commit()/rollback() consult a fault script (0 ok, 1 raises an ordinary DBAPI error and leaves
    the DBAPI transaction as it was); on the SQLite backend commit fails exactly when a deferred
-   foreign-key violation is pending ([fkbad]).  Definitions only. *)
+   foreign-key violation is pending ([fkbad]) and autobegin emits BEGIN (pysqlite savepoint
+   workaround) unless a transaction is already open.  Definitions only. *)
 From Coq Require Import List ZArith Bool.
 Import ListNotations.
 Open Scope Z_scope.
@@ -25,7 +33,8 @@ Record db : Type := mkdb {
   dirty : bool;       (* uncommitted writes *)
   fkbad : bool;       (* a deferred constraint is violated: COMMIT will fail (SQLite backend) *)
   iso : Z;            (* 0 = the default isolation level *)
-  autoc : bool }.     (* isolation_level="AUTOCOMMIT" *)
+  autoc : bool;       (* isolation_level="AUTOCOMMIT" *)
+  sp : list (bool * bool) }.  (* open savepoints, oldest first: (dirty, fkbad) when each was taken *)
 
 Definition pristine (d : db) : bool :=
   negb (in_txn d) && negb (dirty d) && (iso d =? 0) && negb (autoc d).
@@ -34,7 +43,8 @@ Record st : Type := mkst {
   idle : option db;       (* the connection kept by the pool, if any *)
   nconn : Z;
   faults : list Z;
-  log : list Z;           (* DBAPI calls of the current user: 1 commit, 2 rollback, 3 set isolation level *)
+  log : list Z;           (* DBAPI calls of the current user: 1 commit, 2 rollback, 3 set isolation level,
+                             4 SAVEPOINT, 5 ROLLBACK TO SAVEPOINT, 6 RELEASE SAVEPOINT, 7 BEGIN *)
   twr_unsound : bool }.   (* ghost: transaction_was_reset=True reached _reset while the DBAPI transaction was open *)
 
 Definition init (fl : list Z) : st :=
@@ -48,7 +58,8 @@ Definition set_unsound s := mkst (idle s) (nconn s) (faults s) (log s) true.
 Definition next_fault (s : st) : Z * st :=
   match faults s with [] => (0, s) | c :: r => (c, set_faults s r) end.
 
-Definition clean (d : db) : db := mkdb (cid d) false false false (iso d) (autoc d).
+(* after COMMIT / ROLLBACK *)
+Definition clean (d : db) : db := mkdb (cid d) false false false (iso d) (autoc d) [].
 
 (* dbapi_connection.commit(): fails on a pending deferred violation or on script *)
 Definition db_commit (d : db) (s : st) : bool * db * st :=
@@ -62,20 +73,38 @@ Definition db_rollback (d : db) (s : st) : bool * db * st :=
   if c =? 1 then (false, d, s2) else (true, clean d, s2).
 (* dialect.set_isolation_level: 1 = a non-default level, 2 = AUTOCOMMIT, 0 = the default *)
 Definition db_set_iso (level : Z) (d : db) (s : st) : db * st :=
-  (if level =? 2 then mkdb (cid d) (in_txn d) (dirty d) (fkbad d) (iso d) true
-   else mkdb (cid d) (in_txn d) (dirty d) (fkbad d) level false, add_log s 3).
+  (if level =? 2 then mkdb (cid d) (in_txn d) (dirty d) (fkbad d) (iso d) true (sp d)
+   else mkdb (cid d) (in_txn d) (dirty d) (fkbad d) level false (sp d), add_log s 3).
+(* a write statement *)
+Definition db_write (bad : bool) (d : db) : db :=
+  if autoc d then d else mkdb (cid d) true true (bad || fkbad d) (iso d) (autoc d) (sp d).
+(* SAVEPOINT / ROLLBACK TO SAVEPOINT k / RELEASE SAVEPOINT k  (k = position in the savepoint stack) *)
+Definition db_savepoint (d : db) (s : st) : db * st :=
+  (mkdb (cid d) (in_txn d) (dirty d) (fkbad d) (iso d) (autoc d) (sp d ++ [(dirty d, fkbad d)]), add_log s 4).
+Definition db_rollback_to (k : nat) (d : db) (s : st) : db * st :=
+  (match nth_error (sp d) k with
+   | Some (dr, fk) => mkdb (cid d) (in_txn d) dr fk (iso d) (autoc d) (firstn (S k) (sp d))
+   | None => d
+   end, add_log s 5).
+Definition db_release (k : nat) (d : db) (s : st) : db * st :=
+  (mkdb (cid d) (in_txn d) (dirty d) (fkbad d) (iso d) (autoc d) (firstn k (sp d)), add_log s 6).
 
 Section Model.
 Variable reset : rstyle.
 Variable kind : pkind.
+Variable begin_emits : bool.   (* the "begin" event listener emits BEGIN (SQLite backend) *)
+Variable engine_iso : Z.       (* option engine: Engine.execution_options(isolation_level=...): 0 none, 1 level, 2 AUTOCOMMIT *)
 
-Fixpoint run_finalizers (n : nat) (d : db) (s : st) : db * st :=
-  match n with O => (d, s) | S k => let (d1, s1) := db_set_iso 0 d s in run_finalizers k d1 s1 end.
+(* record.finalize_callback: one entry per _set_connection_characteristics call; true = the call named
+   isolation_level, so the finaliser calls reset_isolation_level.  checkin pops from the end. *)
+Fixpoint run_finalizers (fins : list bool) (d : db) (s : st) : db * st :=
+  match fins with
+  | [] => (d, s)
+  | b :: r => let (d1, s1) := if b then db_set_iso 0 d s else (d, s) in run_finalizers r d1 s1
+  end.
 
-(* _finalize_fairy(..., transaction_was_reset=twr) followed by _ConnectionRecord.checkin:
-   _reset; an error invalidates the record (connection closed, finalizers cleared); otherwise the
-   pending characteristic finalizers run and the connection goes back to the pool (NullPool closes it) *)
-Definition finalize (d : db) (nfin : nat) (twr : bool) (s : st) : st :=
+(* _finalize_fairy(..., transaction_was_reset=twr) followed by _ConnectionRecord.checkin *)
+Definition finalize (d : db) (fins : list bool) (twr : bool) (s : st) : st :=
   let s := if twr && in_txn d then set_unsound s else s in
   let '(ok, d1, s1) :=
     match reset with
@@ -84,76 +113,179 @@ Definition finalize (d : db) (nfin : nat) (twr : bool) (s : st) : st :=
     | RNone => (true, d, s)
     end in
   if ok then
-    let (d2, s2) := run_finalizers nfin d1 s1 in
+    let (d2, s2) := run_finalizers (rev fins) d1 s1 in
     set_idle s2 (match kind with PNull => None | _ => Some d2 end)
   else set_idle s1 None.
 
-Inductive op := OWrite | OCommit | ORollback | OIso | OAutoc | OFailStmt | OBegin | OFkWrite
-              | OClose | ODrop | OInvalidate.
+Inductive op :=
+| OWrite | OCommit | ORollback | OFailStmt | OBegin | OFkWrite | OClose | ODrop | OInvalidate
+| OOpts (level : Z) (token other : bool)      (* conn.execution_options(isolation_level=?, logging_token=?, stream_results=?) *)
+| ONBegin | ONCommit | ONRollback | ONClose.  (* begin_nested(); commit/rollback/close of the LAST NestedTransaction made *)
+
+(* a NestedTransaction object: is_active, _previous_nested, its savepoint (position in the DBAPI stack) *)
+Record nobj : Type := mknobj { n_active : bool; n_prev : option nat; n_sp : nat }.
 
 (* the engine-level Connection during one checkout:
-   txn = None | Some true (active RootTransaction) | Some false (inactive, still attached) *)
-Record cst : Type := mkcst { cdb : db; txn : option bool; nfin : nat; done : bool }.
+   txn = None | Some true (active RootTransaction) | Some false (inactive, still attached);
+   ntop = connection._nested_transaction; ns = every NestedTransaction made, in order *)
+Record cst : Type := mkcst {
+  cdb : db; txn : option bool; fins : list bool; ntop : option nat; ns : list nobj; done : bool }.
 
-(* one operation; result code 0 ok, 1 DBAPIError, 2 InvalidRequestError (incl. PendingRollbackError) *)
+Definition set_cdb c d := mkcst d (txn c) (fins c) (ntop c) (ns c) (done c).
+Definition set_txn c t := mkcst (cdb c) t (fins c) (ntop c) (ns c) (done c).
+
+Fixpoint set_nth {A} (l : list A) (i : nat) (v : A) : list A :=
+  match l, i with
+  | [], _ => []
+  | _ :: r, O => v :: r
+  | x :: r, S j => x :: set_nth r j v
+  end.
+Definition deactivate (l : list nobj) (i : nat) : list nobj :=
+  match nth_error l i with Some n => set_nth l i (mknobj false (n_prev n) (n_sp n)) | None => l end.
+
+(* NestedTransaction._cancel along _previous_nested: everything inactive, nothing attached *)
+Fixpoint cancel_from (fuel : nat) (o : option nat) (l : list nobj) : list nobj :=
+  match fuel, o with
+  | S f, Some i => cancel_from f (match nth_error l i with Some n => n_prev n | None => None end) (deactivate l i)
+  | _, _ => l
+  end.
+Definition cancel_nested (c : cst) : cst :=
+  match ntop c with
+  | Some _ => mkcst (cdb c) (txn c) (fins c) None (cancel_from (length (ns c)) (ntop c) (ns c)) (done c)
+  | None => c
+  end.
+
+(* _execute_context: a transaction / the current savepoint that is attached but inactive *)
+Definition invalid_state (c : cst) : bool :=
+  match txn c with
+  | Some false => true
+  | _ => match ntop c with
+         | Some i => match nth_error (ns c) i with Some n => negb (n_active n) | None => false end
+         | None => false
+         end
+  end.
+
+(* self._autobegin(): RootTransaction(self); on the SQLite backend the "begin" listener emits BEGIN
+   unless the DBAPI connection already is in a transaction *)
+Definition autobegin (c : cst) (s : st) : cst * st :=
+  match txn c with
+  | Some _ => (c, s)
+  | None =>
+      if begin_emits && negb (in_txn (cdb c)) then
+        let d := cdb c in
+        (mkcst (mkdb (cid d) true (dirty d) (fkbad d) (iso d) (autoc d) (sp d)) (Some true) (fins c) (ntop c) (ns c) (done c),
+         add_log s 7)
+      else (set_txn c (Some true), s)
+  end.
+
+(* RootTransaction._close_impl: rollback if active (an error skips the cancel), cancel savepoints,
+   always detached afterwards *)
+Definition root_close (c : cst) (s : st) : bool * cst * st :=
+  match txn c with
+  | Some true =>
+      let '(ok, d1, s1) := db_rollback (cdb c) s in
+      let c1 := set_txn (set_cdb c d1) None in
+      (ok, if ok then cancel_nested c1 else c1, s1)
+  | Some false => (true, set_txn (cancel_nested c) None, s)
+  | None => (true, c, s)
+  end.
+
+(* one operation; result code 0 ok, 1 DBAPIError, 2 InvalidRequestError (incl. PendingRollbackError),
+   9 skipped by the harness (no NestedTransaction made yet) *)
 Definition do_op (o : op) (c : cst) (s : st) : Z * cst * st :=
   let d := cdb c in
   match o with
   | OWrite | OFailStmt | OFkWrite =>
-      match txn c with
-      | Some false => (2, c, s)                                   (* _invalid_transaction() *)
-      | _ =>
-          (* autobegin: RootTransaction(self); do_begin emits nothing *)
-          match o with
-          | OFailStmt => (1, mkcst d (Some true) (nfin c) false, s)
-          | _ =>
-              let bad := match o with OFkWrite => true | _ => fkbad d end in
-              let d1 := if autoc d then d else mkdb (cid d) true true bad (iso d) (autoc d) in
-              (0, mkcst d1 (Some true) (nfin c) false, s)
-          end
-      end
+      if invalid_state c then (2, c, s)                           (* _invalid_transaction() *)
+      else
+        let (c1, s1) := autobegin c s in
+        match o with
+        | OFailStmt => (1, c1, s1)
+        | _ => (0, set_cdb c1 (db_write (match o with OFkWrite => true | _ => false end) (cdb c1)), s1)
+        end
   | OCommit =>
       match txn c with
       | None => (0, c, s)
       | Some true =>
-          (* RootTransaction._do_commit: deactivate in [finally]; detach only when commit succeeded *)
+          (* RootTransaction._do_commit: in [finally]: cancel savepoints, deactivate; detach only when
+             commit succeeded *)
           let '(ok, d1, s1) := db_commit d s in
-          if ok then (0, mkcst d1 None (nfin c) false, s1) else (1, mkcst d1 (Some false) (nfin c) false, s1)
+          let c1 := cancel_nested (set_cdb c d1) in
+          if ok then (0, set_txn c1 None, s1) else (1, set_txn c1 (Some false), s1)
       | Some false => (2, c, s)
       end
   | ORollback =>
-      match txn c with
-      | None => (0, c, s)
-      | Some true =>
-          (* _close_impl(try_deactivate=True): rollback if active; always detached afterwards *)
-          let '(ok, d1, s1) := db_rollback d s in
-          ((if ok then 0 else 1), mkcst d1 None (nfin c) false, s1)
-      | Some false => (0, mkcst d None (nfin c) false, s)          (* no ROLLBACK is emitted *)
-      end
-  | OIso | OAutoc =>
-      match txn c with
-      | Some true => (2, c, s)                                      (* "may not be altered unless rollback() or commit()" *)
-      | _ =>
-          let (d1, s1) := db_set_iso (match o with OIso => 1 | _ => 2 end) d s in
-          (0, mkcst d1 (txn c) (S (nfin c)) false, s1)              (* finalize_callback.append(_reset_characteristics) *)
-      end
+      let '(ok, c1, s1) := root_close c s in ((if ok then 0 else 1), c1, s1)
+  | OOpts level token other =>
+      (* set_connection_execution_options: only isolation_level / logging_token are characteristics *)
+      if negb (level =? 0) || token then
+        if negb (level =? 0) && match txn c with Some true => true | _ => false end then (2, c, s)
+        else
+          let (d1, s1) := if level =? 0 then (d, s) else db_set_iso level d s in
+          (0, mkcst d1 (txn c) (fins c ++ [negb (level =? 0)]) (ntop c) (ns c) false, s1)
+      else (0, c, s)
   | OBegin =>
       match txn c with
-      | None => (0, mkcst d (Some true) (nfin c) false, s)
+      | None => let (c1, s1) := autobegin c s in (0, c1, s1)
       | Some _ => (2, c, s)
+      end
+  | ONBegin =>
+      (* begin_nested(): autobegin, then NestedTransaction(self): SAVEPOINT goes through execute() *)
+      let (c1, s1) := autobegin c s in
+      if invalid_state c1 then (2, c1, s1)
+      else
+        let (d1, s2) := db_savepoint (cdb c1) s1 in
+        let i := length (ns c1) in
+        (0, mkcst d1 (txn c1) (fins c1) (Some i) (ns c1 ++ [mknobj true (ntop c1) (length (sp (cdb c1)))]) false, s2)
+  | ONCommit =>
+      match length (ns c) with
+      | O => (9, c, s)
+      | S i =>
+          match nth_error (ns c) i with
+          | Some n =>
+              if n_active n then
+                (* RELEASE goes through execute(): the inactive checks apply; is_active = False in [finally] *)
+                if invalid_state c then (2, mkcst d (txn c) (fins c) (ntop c) (deactivate (ns c) i) false, s)
+                else
+                  let (d1, s1) := db_release (n_sp n) d s in
+                  (0, mkcst d1 (txn c) (fins c)
+                        (match ntop c with Some j => if Nat.eqb j i then n_prev n else ntop c | None => None end)
+                        (deactivate (ns c) i) false, s1)
+              else (2, c, s)
+          | None => (9, c, s)
+          end
+      end
+  | ONRollback | ONClose =>
+      match length (ns c) with
+      | O => (9, c, s)
+      | S i =>
+          match nth_error (ns c) i with
+          | Some n =>
+              (* _close_impl: ROLLBACK TO only when this and the root transaction are active *)
+              let rb := n_active n && match txn c with Some true => true | _ => false end in
+              if rb && invalid_state c then (2, mkcst d (txn c) (fins c)
+                        (match ntop c with Some j => if Nat.eqb j i then n_prev n else ntop c | None => None end)
+                        (deactivate (ns c) i) false, s)
+              else
+                let (d1, s1) := if rb then db_rollback_to (n_sp n) d s else (d, s) in
+                (0, mkcst d1 (txn c) (fins c)
+                      (match ntop c with Some j => if Nat.eqb j i then n_prev n else ntop c | None => None end)
+                      (deactivate (ns c) i) false, s1)
+          | None => (9, c, s)
+          end
       end
   | OClose =>
       (* Connection.close(): if self._transaction: skip_reset = self._transaction.is_active (read before)
-         self._transaction.close(); a transaction left inactive by a failed commit gets the pool's reset *)
+         self._transaction.close() *)
       match txn c with
       | Some active =>
-          let '(ok, d1, s1) := if active then db_rollback d s else (true, d, s) in
-          if ok then (0, mkcst d1 None (nfin c) true, finalize d1 (nfin c) active s1)
-          else (1, mkcst d1 None (nfin c) false, s1)                (* the error escapes close(); still checked out *)
-      | None => (0, mkcst d None (nfin c) true, finalize d (nfin c) false s)
+          let '(ok, c1, s1) := root_close c s in
+          if ok then (0, mkcst (cdb c1) None (fins c1) (ntop c1) (ns c1) true, finalize (cdb c1) (fins c1) active s1)
+          else (1, c1, s1)                                          (* the error escapes close(); still checked out *)
+      | None => (0, mkcst d None (fins c) (ntop c) (ns c) true, finalize d (fins c) false s)
       end
-  | ODrop => (0, mkcst d (txn c) (nfin c) true, finalize d (nfin c) false s)      (* weakref callback *)
-  | OInvalidate => (0, mkcst d (txn c) (nfin c) true, set_idle s None)          (* connection closed and forgotten *)
+  | ODrop => (0, mkcst d (txn c) (fins c) (ntop c) (ns c) true, finalize d (fins c) false s)      (* weakref callback *)
+  | OInvalidate => (0, mkcst d (txn c) (fins c) (ntop c) (ns c) true, set_idle s None)          (* connection closed and forgotten *)
   end.
 
 Fixpoint do_ops (ops : list op) (c : cst) (s : st) (codes : list Z) : list Z * cst * st :=
@@ -164,20 +296,27 @@ Fixpoint do_ops (ops : list op) (c : cst) (s : st) (codes : list Z) : list Z * c
       if done c1 then (rev (code :: codes), c1, s1) else do_ops r c1 s1 (code :: codes)
   end.
 
-(* one user: checkout (the pooled connection or a new one), operations, and - when the user never
-   returned it - the garbage collector *)
+(* the pool hands out the pooled connection or a new one *)
 Definition checkout (s : st) : db * st :=
   match idle s with
   | Some d => (d, set_idle s None)
-  | None => (mkdb (nconn s) false false false 0 false,
+  | None => (mkdb (nconn s) false false false 0 false [],
              mkst None (nconn s + 1) (faults s) (log s) (twr_unsound s))
   end.
 
+(* engine.connect(): checkout, then the option engine's engine_connect listener applies its
+   characteristics (one finaliser) *)
+Definition connect (d : db) (s : st) : cst * st :=
+  if engine_iso =? 0 then (mkcst d None [] None [] false, s)
+  else let (d1, s1) := db_set_iso engine_iso d s in (mkcst d1 None [true] None [] false, s1).
+
+(* one user: checkout, operations, and - when the user never returned it - the garbage collector *)
 Definition user (ops : list op) (s : st) : db * list Z * st :=
   let (d, s0) := checkout s in
   let s1 := mkst (idle s0) (nconn s0) (faults s0) [] (twr_unsound s0) in
-  let '(codes, c, s2) := do_ops ops (mkcst d None O false) s1 [] in
-  (d, codes, if done c then s2 else finalize (cdb c) (nfin c) false s2).
+  let (c0, s2) := connect d s1 in
+  let '(codes, c, s3) := do_ops ops c0 s2 [] in
+  (d, codes, if done c then s3 else finalize (cdb c) (fins c) false s3).
 
 Fixpoint run (us : list (list op)) (s : st) : st :=
   match us with [] => s | u :: r => run r (snd (user u s)) end.
